@@ -133,8 +133,37 @@ def _back(args):
                 else:
                     out.append("set")
         return out
+    # the memory wait is decided by the address on the bus: the same stages on concrete register contents in which every two
+    # registers differ in class (RAM / I/O) under at least one assignment, so that a wait decided by another register's content
+    # (or by the data byte) shows as a wait that does not fit the recorded address
+    waitcases = []
+    if rec["read"] or rec["write"]:
+        ram_v = [0x10, 0x20, 0x30, 0x40, 0x50, 0x60, 0x70, 0xEF]
+        io_v = [0xF1, 0xF2, 0xF3, 0xF4, 0xF5, 0xF6, 0xF7, 0xF0]
+        for bit in (0, 1, 2):
+            for flip in (0, 1):
+                regs = [(ram_v[k] if ((k >> bit) & 1) == flip else io_v[k]) for k in range(8)]
+                I2 = absint.Interp(p)
+                rec2 = {"read": [], "write": []}
+                I2.fn_overrides[BUS_READ] = lambda I_, st_, d_, c_, a_, b_, l_, rec2=rec2: (rec2["read"].append(tag(a_[1])), Opaque("BUS"))[1]
+                I2.fn_overrides[BUS_WRITE] = lambda I_, st_, d_, c_, a_, b_, l_, rec2=rec2: (rec2["write"].append(tag(a_[1])), Agg(()))[1]
+                I2.fn_overrides[ALU_FROM] = lambda I_, st_, d_, c_, a_, b_, l_: Opaque("ALURES")
+                I2.fn_overrides[ALU_OUT] = lambda I_, st_, d_, c_, a_, b_, l_: D.norm_rng(0, 255)
+                I2.fn_overrides[SIG_CF] = lambda I_, st_, d_, c_, a_, b_, l_: frozenset((0, 1))
+                ov2 = step.machine_overrides(p, a, "Running", False, ir, Opaque("LBR"),
+                                             extra={"register.content": Arr(regs), "pending_register_write": En({0: ()}),
+                                                    "pending_flag_write": En({0: ()})})
+                st2 = absint.State()
+                ma2 = step.new_machine(p, I2, st2, ov2)
+                cur2 = Agg((Ref(ma2, (), True),))
+                for s in step.STAGES:
+                    cur2 = I2.run_body(p.need_body(s), [cur2], st2, 0)
+                    if cur2 is BOT:
+                        break
+                w2 = step.field(p, I2, st2, ma2, "pending_wait_for_memory")
+                waitcases.append((bit, flip, rec2["read"], rec2["write"], sorted(w2.vs) if isinstance(w2, En) else None))
     return (a, ir), {"read": rec["read"], "write": rec["write"], "alu": rec["alu"], "prw": opt(prw),
-                     "pfw": opt(pfw), "lbr": tag(lbr), "bad": bad, "bot": cur is BOT}
+                     "pfw": opt(pfw), "lbr": tag(lbr), "bad": bad, "bot": cur is BOT, "waitcases": waitcases}
 
 
 def _commit(k):
